@@ -52,6 +52,8 @@ class Spec:
         self.assume = False
         self.extra = []
         self.prelude = []
+        self.epilogue = []
+        self.props = []
 
     def clone_for_arm(self, arm):
         s = Spec()
@@ -60,8 +62,13 @@ class Spec:
         s.contract = list(self.contract)
         s.rewrites = list(self.rewrites)
         s.prelude = list(self.prelude)
+        s.epilogue = list(self.epilogue)
+        s.props = list(self.props)
         if arm:
             s.prelude += arm.prelude
+            s.epilogue += arm.epilogue
+            if arm.props:
+                s.props = arm.props
             s.loops = arm.loops
             s.inserts = arm.inserts
             s.rewrites += arm.rewrites
@@ -79,7 +86,8 @@ def pat_ident(p):
 
 
 class Expander:
-    def __init__(self, template_path):
+    def __init__(self, template_path, vacuity=False):
+        self.vacuity = vacuity
         self.tpath = template_path
         self.sources = {}
         self.functions = []     # metadata of every pasted function
@@ -202,6 +210,10 @@ class Expander:
                     sink = cur.extra
                 elif key == 'prelude':
                     sink = cur.prelude
+                elif key == 'epilogue':
+                    sink = cur.epilogue
+                elif key == 'props':
+                    cur.props = arg.split()
                 elif key == 'loop':
                     sink = cur.loops.setdefault(int(arg), [])
                 elif key in ('before', 'after'):
@@ -290,6 +302,14 @@ class Expander:
             clauses = self.add_requires(clauses, extra_requires)
         if spec.extra:
             clauses = self.merge_clauses(clauses, spec.extra)
+        if getattr(self, '_twin', False):
+            # vacuity canary: with this extra postcondition the function MUST fail to verify
+            clauses = [c for c in clauses if c.strip()]
+            if not any(c.strip().startswith('ensures') for c in clauses):
+                clauses.append('    ensures')
+            elif not clauses[-1].rstrip().endswith(',') and not clauses[-1].split('//')[0].rstrip().endswith(','):
+                clauses[-1] = clauses[-1] + ','
+            clauses.append('        false, // @VACUITY')
         out += '\n'.join(clauses)
         return out, name
 
@@ -342,11 +362,17 @@ class Expander:
         fn = s.find_fn(name, impl_re)
         return s, fn, rel, qual, parts[3:]
 
-    def record(self, rel, qual, s, fn, obligation, assumed, arm=None):
+    def record(self, rel, qual, s, fn, obligation, assumed, arm=None, props=None):
         line0 = s.text.count('\n', 0, fn['sig_start']) + 1
         line1 = s.text.count('\n', 0, fn['body_close']) + 1
         self.functions.append(dict(source=rel, function=qual, arm=arm, lines=[line0, line1],
-                                   verus_fn=obligation, assumed=assumed))
+                                   verus_fn=obligation, assumed=assumed, props=list(props or [])))
+
+    def begin(self, ident):
+        self.out.append('//@@BEGIN %s' % ident)
+
+    def end(self, ident):
+        self.out.append('//@@END %s' % ident)
 
     # ------------------------------------------------------------------------------------
     def do_fn(self, directive, block):
@@ -359,6 +385,9 @@ class Expander:
             newname = rest[1]
         hdr, name = self.signature(fn['sig'], spec, newname)
         label = qual
+        impl = qual.split('::')[0]
+        vname = '%s::%s' % (impl, newname or name)
+        self.begin(vname)
         if spec.assume:
             self.out.append('#[verifier::external_body]')
             self.out.append(hdr)
@@ -368,7 +397,17 @@ class Expander:
             body = self.weave(s.body(fn), spec, label)
             self.out.append(hdr)
             self.out.append('{' + body + '}')
-        self.record(rel, qual, s, fn, newname or name, spec.assume)
+        self.end(vname)
+        self.record(rel, qual, s, fn, vname, spec.assume, props=spec.props)
+        if self.vacuity and not spec.assume:
+            self._twin = True
+            hdr2, _ = self.signature(fn['sig'], spec, (newname or name) + '__vac')
+            self._twin = False
+            self.begin(vname + '__vac')
+            self.out.append(hdr2)
+            self.out.append('{' + body + '}')
+            self.end(vname + '__vac')
+            self.record(rel, qual, s, fn, vname + '__vac', False, arm='<vacuity twin>', props=['VACUITY'])
 
     def do_arms(self, directive, block):
         s, fn, rel, qual, rest = self.locate(directive)
@@ -398,6 +437,8 @@ class Expander:
                 if np != '_' else None
             hdr, _ = self.signature(fn['sig'], aspec, ident, cond)
             label = '%s[%s]' % (qual, np)
+            vname = '%s::%s' % (qual.split('::')[0], ident)
+            self.begin(vname)
             if aspec.assume:
                 self.out.append('#[verifier::external_body]')
                 self.out.append(hdr)
@@ -408,7 +449,17 @@ class Expander:
                 text = self.weave(inner, aspec, label)
                 self.out.append(hdr)
                 self.out.append('{' + (prefix + '\n' if prefix else '') + text + '}')
-            self.record(rel, qual, s, fn, ident, aspec.assume, arm=np)
+            self.end(vname)
+            self.record(rel, qual, s, fn, vname, aspec.assume, arm=np, props=aspec.props)
+            if self.vacuity and not aspec.assume:
+                self._twin = True
+                hdr2, _ = self.signature(fn['sig'], aspec, ident + '__vac', cond)
+                self._twin = False
+                self.begin(vname + '__vac')
+                self.out.append(hdr2)
+                self.out.append('{' + (prefix + '\n' if prefix else '') + text + '}')
+                self.end(vname + '__vac')
+                self.record(rel, qual, s, fn, vname + '__vac', False, arm='<vacuity twin>', props=['VACUITY'])
             dispatch.append((np, ident))
         missing = set(armspecs) - used
         if missing:
@@ -426,13 +477,16 @@ class Expander:
             for p in split_top(top.ghost):
                 mm = re.match(r'\s*Ghost\((\w+)\)', p)
                 argnames.append('Ghost(%s)' % mm.group(1))
+        vname = '%s::%s' % (qual.split('::')[0], name)
+        self.begin(vname)
         self.out.append(hdr)
         self.out.append('{\n    match %s {' % scrut)
         for np, ident in dispatch:
             pats = ' | '.join('OpcodeKind::%s' % v.strip() for v in np.split('|')) if np != '_' else '_'
             self.out.append('        %s => self.%s(%s),' % (pats, ident, ', '.join(argnames)))
         self.out.append('    }\n}')
-        self.record(rel, qual, s, fn, name, False, arm='<dispatcher>')
+        self.end(vname)
+        self.record(rel, qual, s, fn, vname, False, arm='<dispatcher>', props=top.props)
         self.rules_used.add('R10')
 
 
@@ -453,9 +507,19 @@ def split_top(s):
     return out
 
 
-def build_unit(template, out_path):
-    ex = Expander(template)
+def build_unit(template, out_path, vacuity=False):
+    ex = Expander(template, vacuity=vacuity)
     text = ex.expand()
+    # line ranges of every pasted function in the generated unit
+    ranges = {}
+    for no, ln in enumerate(text.split('\n'), 1):
+        if ln.startswith('//@@BEGIN '):
+            ranges[ln.split()[1]] = [no, None]
+        elif ln.startswith('//@@END '):
+            ranges[ln.split()[1]][1] = no
+    for f in ex.functions:
+        f['unit_lines'] = ranges.get(f['verus_fn'])
+    ex.text = text
     os.makedirs(os.path.dirname(out_path), exist_ok=True)
     open(out_path, 'w').write(text)
     return ex
